@@ -870,6 +870,16 @@ func validateCompiledInput(route *ast.Route, body map[string]interface{}) error 
 	}
 	named, ok := route.InputType.(ast.NamedType)
 	if !ok {
+		// Any other declared type (T?, A | B, [T], a scalar): a body that is
+		// present must conform to it, as on the interpreter path.
+		if body == nil {
+			return nil
+		}
+		checker := interpreter.NewTypeChecker()
+		checker.SetTypeDefs(compiledTypeDefs)
+		if err := checker.CheckType(body, route.InputType); err != nil {
+			return fmt.Errorf("input validation failed: %v", err)
+		}
 		return nil
 	}
 	typeDef, exists := compiledTypeDefs[named.Name]
